@@ -46,6 +46,6 @@ PROPS = {
     "C16": {"families": [("hist", "fail", 300), ("hist", "batch", 200), ("reserved", None, 1), ("match", None, 2000)], "obligations": P("Props.C16") + CLIENT_TIES, "rule": HIST_RULE},
     "C17": {"families": [("hist", "general", 300), ("hist", "lifecycle", 200), ("hist", "emul", 200)], "obligations": P("Props.C17", "Props.C10"), "rule": HIST_RULE},
     "C18": {"families": [("hist", "lifecycle", 600)], "obligations": P("Props.C18") + [(TS, "Minidyn.Tie.no_singleton_leak")], "rule": HIST_RULE},
-    "C19": {"families": [("hist", "batch", 600), ("decomp", None, 300)], "obligations": P("Props.C19", "Props.C19Get", "Props.RefineBatch") + CLIENT_TIES[:1], "rule": HIST_RULE},
+    "C19": {"families": [("hist", "batch", 600), ("decomp", None, 300), ("poke", None, 40)], "obligations": P("Props.C19", "Props.C19Get", "Props.RefineBatch") + CLIENT_TIES[:1], "rule": HIST_RULE},
     "C20": {"families": [("hist", "native", 600)], "obligations": P("Props.C20") + [(T, "Minidyn.Tie.native_keys_tie")], "rule": HIST_RULE},
 }
